@@ -169,9 +169,13 @@ PENDING = {}   # id -> reason, for properties whose check is not built yet
 
 # sentences added in the last rounds (appended to the text of the property's level)
 EXTRA_TEXT = {
-    "C01": " Also: search/hash getters return the empty string for a null and for an empty component, the host getter appends the port on engagement alone.",
+    "C05": " Also (P10, shared with C07.S8): the pathname setter removes an existing \"/.\" guard on every path before the new path is written.",
+    "C07": " Also: clearing editors erase exactly the span of their component; the pathname setter removes an existing \"/.\" guard before the new path is written.",
+    "C13": " Also: the compare-exchange that elects the initialiser expects the constant kTablesUninit.",
+    "C19": " Also: no refusal of the host setter depends on a condition its twin does not test.",
+    "C01": " Also: verdict flags accumulated over a scanning loop are only narrowed / widened there; search/hash getters return the empty string for a null and for an empty component, the host getter appends the port on engagement alone.",
     "C02": " Also (M6): every string/string_view subscript whose index the dominating branch conditions (linear normal form, combined up to three at a time) bound against the size is bounded strictly; an inclusive bound is reported, unbounded ones are not decided.",
-    "C03": " Also: port, query and fragment are set to null only in the setter's input.empty() arm.",
+    "C03": " Also: port, query and fragment are set to null only in the setter's input.empty() arm; no refusal of the scheme parsers tests the raw input's scheme type where it is already known to be NOT_SPECIAL.",
     "C04": " Also: in the relative and relative-slash states the base's host text goes to a function with a path that leaves the url without authority (a null host stays null); getter empties shared with C01.",
     "C11": " Also (R10): the verbatim-prefix index of percent_encode(input, set, index) is the unmodified result of percent_encode_index on the same input and set.",
     "C12": " Also: effect summaries of reset/append/remove/sort/initialize on the pair list (reset discards on every path); split arithmetic of the urlencoded parser around the delimiter position; set() appends on every not-found path and compacts behind the overwritten pair; get_all leaves its loop only at the head.",
